@@ -1,7 +1,7 @@
 """Rule-level helpers shared by the property modules."""
 import re
 from .facts import norm, op_local, op_base, callee_names, is_call_to, call_matches
-from .analysis import (defuse, value_tests, call_result_tests, requires, requires_failure,
+from .analysis import (Test, defuse, value_tests, call_result_tests, requires, requires_failure,
                        ctor_sites, call_sites, field_accesses, ref_consumers, returns_of,
                        agg_shape, await_output, source_fn, family_of_type, switch_edges, Test)
 from .report import AnchorMissing
@@ -566,6 +566,51 @@ def cmp_tests(f, ops=("Gt", "Ge", "Lt", "Le", "Eq", "Ne"), pred=None):
                 ts, _ = value_tests(f, [s["lhs"]["l"]], family="bool")
                 out.append((b, s, ts))
     return out
+
+
+def emptiness_tests(f, field):
+    """Tests of `self.<field>` being empty, in any of the accepted idioms: `.is_empty()`,
+    `.len() == 0`, `.len() != 0`, `.len() > 0`, `0 < .len()`, `.len() < 1` ...; success
+    edges = the collection is empty.  Returns (tests, sites)."""
+    out, sites = [], []
+    for b, t in f.calls():
+        if call_matches(t, r"::is_empty$") and t["args"] and recv_field(f, t["args"][0]) == field:
+            ts, _ = call_result_tests(f, b, family="bool")
+            out += ts
+            sites.append(b)
+    lens = {t["dest"]["l"]: b for b, t in f.calls() if call_matches(t, r"::len$") and t["args"] and recv_field(f, t["args"][0]) == field and not t["dest"].get("p")}
+    if lens:
+        du = defuse(f)
+
+        def is_len(o):
+            l = op_base(o)
+            return l is not None and any(x[0] == "call" and x[1].endswith("::len") for x in copy_sources(f, l)) and any(d in lens for d in du.closure(l))
+
+        def const(o):
+            if o["k"] != "const":
+                return None
+            m = re.match(r"(?:const )?(\d+)_", str(o.get("v")))
+            return int(m.group(1)) if m else None
+        for b, st, ts in cmp_tests(f):
+            rv = st["rv"]
+            a, c, op = rv["a"], rv["b"], rv["op"]
+            if is_len(c) and const(a) is not None:
+                a, c = c, a
+                op = {"Gt": "Lt", "Lt": "Gt", "Ge": "Le", "Le": "Ge"}.get(op, op)
+            if not (is_len(a) and const(c) is not None):
+                continue
+            k = const(c)
+            # truth of the comparison <=> empty ?
+            if (op, k) in (("Eq", 0), ("Lt", 1), ("Le", 0)):
+                empty_on_true = True
+            elif (op, k) in (("Ne", 0), ("Gt", 0), ("Ge", 1)):
+                empty_on_true = False
+            else:
+                continue
+            for t_ in ts:
+                out.append(t_ if empty_on_true else Test(t_.bb, t_.failure, t_.success, t_.level, t_.family, not t_.neg, t_.local))
+            sites.append(b)
+    return out, sites
 
 
 def field_writes(f, field, owner=None):
